@@ -187,6 +187,8 @@ def run_impl(cfg, segs, eof=False):
     outs = []
     events = []           # flat structured events across the run (for the direct oracle)
     current = None        # payload in progress
+    cur_done = False      # `current` has seen EOF or an exception
+    _ended = lambda rec: any(e[0] in ("F", "X") for e in rec)
     err = None
     for seg in segs:
         _log = []
@@ -202,6 +204,7 @@ def run_impl(cfg, segs, eof=False):
         _log = None
         toks = []
         if current is not None:
+            cur_done = cur_done or _ended(current._rec)
             toks += _show_rec(current._rec); events += current._rec; current._rec = []
         if msgs is not None:
             for m, pl in msgs:
@@ -209,6 +212,7 @@ def run_impl(cfg, segs, eof=False):
                 toks.append(_show_msg(cfg, m, hp_))
                 events.append(("M", _show_msg(cfg, m, hp_), _struct_msg(cfg, m)))
                 if hp_:
+                    cur_done = _ended(pl._rec)
                     toks += _show_rec(pl._rec); events += pl._rec; pl._rec = []
                     current = pl
         else:
@@ -247,7 +251,10 @@ def run_impl(cfg, segs, eof=False):
                 name = f"E_OTHER({name})"
             s += " !" + name
         outs.append(s)
-    return " | ".join(outs), {"events": events, "err": err, "pending": pending}
+    # a body stream that was handed to the caller and is neither ended nor failed although feed_data raised:
+    # whoever reads that body waits for ever (the connection-level error is queued behind the running handler)
+    body_open = err is not None and current is not None and not cur_done
+    return " | ".join(outs), {"events": events, "err": err, "pending": pending, "body_open_after_error": body_open}
 
 
 def model_line(cfg, segs, eof=False):
@@ -501,7 +508,14 @@ def mutate(rng, data, kind=None):
         }[kind]
         return head + body + b"GET /next HTTP/1.1\r\nHost: h\r\n\r\n", kind
     if kind == "no_host":
-        return b"GET / HTTP/1.1\r\nAccept: x\r\n\r\n", kind
+        # Host removed from the generated request(s) whatever the target form (origin, absolute, asterisk, authority)
+        kept = [l for l in lines if not l.lower().startswith(b"host:")]
+        if len(kept) != len(lines) and rng.random() < 0.8:
+            return b"\r\n".join(kept), kind
+        t = rng.choice([b"/", b"http://example.com/x", b"http://example.com:80/p?q", b"*", b"//double"])
+        m = b"OPTIONS" if t == b"*" else rng.choice([b"GET", b"POST", b"CONNECT"])
+        if m == b"CONNECT": t = b"example.com:443"
+        return m + b" " + t + b" HTTP/1.1\r\nAccept: x\r\n" + (b"Content-Length: 3\r\n\r\nabc" if m == b"POST" else b"\r\n"), kind
     if kind == "dup_host":
         return after_first_line(b"Host: a\r\nHost: b\r\n"), kind
     if kind == "empty_host":
